@@ -327,8 +327,6 @@ def run(ctx):
             sampled(ctx, env, 3, "fresh", ["R", "S", "C", "I"], "RSCI", 300)
             sampled(ctx, env, 3, "prepared1", ["R", "S", "C", "I"], "RSCI", 100)
             stress(ctx, env, 16, 50, ["fresh", "prepared1", "prepared3"])
-        else:
-            stress(ctx, env, 16, 4, ["fresh", "prepared1"])
         ctx.extra["children_forked"] = env.zy.spawned
         for cfg, v in sorted(ctx.extra.get("schedules", {}).items()):
             ctx.sample({"config": cfg, "passing": v["passing"], "failing": len(v["failing"]), "failing_examples": dict(list(sorted(v["failing"].items()))[:3])})
